@@ -255,6 +255,10 @@ def run_check(pid, tier, jobs=None, only_task=None):
 
     wall = time.time() - t0
     desc = mod.describe(tier) if hasattr(mod, 'describe') else {}
+    if extra and isinstance(desc.get('rule'), str):
+        kinds = sorted({t['variant'] for t in extra})
+        desc['rule'] += (f' Object variants: {len(extra)} of the smallest tasks are run a second time with every harness-built circuit '
+                         f'handed to the library as another Python object ({", ".join(kinds)}: equal but not identical GateType / label objects).')
     distinct = {k: len(v) for k, v in total.outcomes.items()}
     coverage = {
         'states': int(total.states),
